@@ -185,10 +185,15 @@ MovedOk(ev, r) ==        \* every listed element that had to move did move
           (x \in Range(pre) /\ Anchor(exp, x, moved) # Anchor(pre, x, moved))
              => Anchor(obs, x, moved) # Anchor(pre, x, moved)
 
+(* something the message names cannot be found / is a duplicate: every     *)
+(* allowed result reports it (a warning, or MosMergeError)                 *)
+MustReport(R) == \A r \in R : r.status # "ok" \/ r.warns # <<>>
 ReportedOk(ev, R) ==
-  \/ ~StatusOk(ev) \/ ~Shaped(ev.msg) \/ AmbiguousBlank(ev)
+  \/ (~StatusOk(ev) /\ ~Crashed(ev)) \/ ~Shaped(ev.msg) \/ AmbiguousBlank(ev)
+  \/ (Crashed(ev) /\ ~MustReport(R))          \* a foreign exception where nothing had to be reported is C12's business
   \/ ev.msg.cls \notin (StoryClasses \cup ItemClasses)
-  \/ \E r \in R :
+  \/ /\ ~Crashed(ev)                          \* ... and where something had to be, it is neither warning nor MosMergeError
+     /\ \E r \in R :
        \/ r.loose
        \/ /\ r.status = "ok"
           /\ SameBag(ev.warns, r.warns)
